@@ -69,9 +69,12 @@ def main():
         if r and r[0] and r[0] not in ("OnlyKnownStalls",):
             problem("trace-invariant:" + r[0], "an implementation trace reaches a state violating %s" % r[0],
                     {"mode": "trace", "config": cfgname, "tlc": r[1].stdout[-1500:]})
+    for cfgname in (("2", "2bg", "2x", "2bgx") if not chk.thorough else ("2", "2bg", "2x", "2bgx", "3", "3bg")):
+        sc.explore_line_preemptions(chk, cfgname, on_result)
     chk.assumptions += [
         "preemption between operations on shared objects (locks, condition, transport, ready flag, dispatch entry); "
-        "thorough tier additionally between source lines of serve/_dispatch/AsyncResult.wait/__call__",
+        "additionally every source line of serve/_dispatch/_seq_request_callback/_async_request/AsyncResult.wait/__call__/value as the "
+        "single place where the running thread is set aside while the others run; thorough tier: random schedules at line granularity",
         "sending a request is one step (C12 covers _send); the peer answers every request, in any order",
         "virtual time: the 30 s request timeout only runs out when every thread is blocked and nothing is in flight",
         "stalls of a waiter whose reply was already processed belong to C14 and are not reported here"]
